@@ -5,7 +5,7 @@
 # 2. applies it to /repo, runs the quick check(s), reverts /repo.
 set -u
 id=$1; shift
-checks=${*:-$id}
+checks=${*:-${id:0:3}}
 W=/tmp/seed/$id; O=/tmp/seed/$id.out
 mkdir -p /tmp/seed/$id.root; cp /verif/known_findings.json /tmp/seed/$id.root/
 export GOFLAGS=-mod=mod GOPROXY=off GOSUMDB=off GOTOOLCHAIN=local
